@@ -313,6 +313,12 @@ func (a *Analyzer) CheckRule(clause ast.Clause) error {
 		if len(groupByVars) != len(groupByStmt.Fn.Args) {
 			return fmt.Errorf("each argument of group_by must be a distinct variable, got: %v", groupByStmt)
 		}
+		// The group key is read from the solutions of the rule body.
+		for v := range groupByVars {
+			if !hasValue(boundVars, uf, v) {
+				return fmt.Errorf("in %v, the group_by variable %v is not bound by the rule body", clause, v)
+			}
+		}
 		// All head variables have to either be part of group_by key or appear in a reducer application.
 		for v := range headVars {
 			if groupByVars[v] {
